@@ -276,4 +276,40 @@ theorem encode_total (measure : Measure) {d : Doc} (ha : Accepted d) (hs : Shape
   · right
     exact ⟨by unfold encode; rw [herr]; rfl, hnc⟩
 
+/-! ## the decidable twin of `GroupKeysContiguous` -/
+
+open Model.GroupBy Proofs.GroupBy in
+theorem groupKeysContiguous_iff (d : Doc) : groupKeysContiguous d = true ↔ GroupKeysContiguous d := by
+  unfold groupKeysContiguous GroupKeysContiguous
+  cases hp : prepare d with
+  | error e => simp
+  | ok p =>
+    simp only [allLevelsContiguousB, List.all_eq_true, List.mem_range, List.length_map]
+    constructor
+    · intro h q hq l hl
+      cases hq
+      exact contiguous_of_contigB _ (h l hl)
+    · intro h l hl
+      exact contigB_of_contiguous _ (h p rfl l hl)
+
+instance (d : Doc) : Decidable (GroupKeysContiguous d) := decidable_of_iff _ (groupKeysContiguous_iff d)
+
+/-- without `group_by` there is nothing to refuse -/
+theorem groupKeysContiguous_of_no_groupby {d : Doc} (h : d.body.groupByL = []) : GroupKeysContiguous d := by
+  intro p _ l hl
+  rw [h] at hl
+  simp at hl
+
+/-! ## "raises `e`", decidably (a `DocG` has no decidable equality) -/
+
+def raises {α : Type} (r : Except String α) (e : String) : Bool :=
+  match r with
+  | .error x => x == e
+  | .ok _ => false
+
+theorem raises_iff {α : Type} (r : Except String α) (e : String) : raises r e = true ↔ r = .error e := by
+  cases r with
+  | error x => simp [raises]
+  | ok a => simp [raises]
+
 end Proofs.EncodeTotal
